@@ -182,16 +182,32 @@ def _kf_region(steps):
             elif k == 7:
                 freed.append(MODELS[m])
     if hx.kf('c03_reused_field_name_deleted'):
-        # RenameField(X -> Y) ... AddField(X) ... DeleteField(X) on one model: the optimiser takes
-        # the delete to be about the renamed field and drops the rename
+        # RenameField(X -> Y) frees the name X; a later AddField(X) / RenameField(Z -> X) takes it
+        # again; a DeleteField of X or Y after that is attributed to the wrong field
         for i, (k1, m1, f1, n1) in enumerate(steps):
             if k1 != 4:
                 continue
+            x, y = FIELDS[f1], FIELDS[n1]
             for j in range(i + 1, len(steps)):
                 k2, m2, f2, n2 = steps[j]
-                if k2 == 0 and m2 == m1 and FIELDS[n2] == FIELDS[f1]:
+                if k2 in (0, 4) and m2 == m1 and FIELDS[n2] == x:
                     for (k3, m3, f3, n3) in steps[j + 1:]:
-                        if k3 == 3 and m3 == m1 and FIELDS[f3] == FIELDS[f1]:
+                        if k3 == 3 and m3 == m1 and FIELDS[f3] in (x, y):
+                            return True
+    if hx.kf('c03_rename_collapsed_onto_freed_name'):
+        # RenameField(X -> Y) at step i frees X; a later RenameField(Z -> X) whose field got the name
+        # Z from an AddField / RenameField *before* step i is collapsed into that earlier mutation,
+        # which then claims X while X is still in use
+        for i, (k1, m1, f1, n1) in enumerate(steps):
+            if k1 != 4:
+                continue
+            x = FIELDS[f1]
+            for j in range(i + 1, len(steps)):
+                k2, m2, f2, n2 = steps[j]
+                if k2 == 4 and m2 == m1 and FIELDS[n2] == x:
+                    z = FIELDS[f2]
+                    for (k0, m0, f0, n0) in steps[:i]:
+                        if k0 in (0, 4) and m0 == m1 and FIELDS[n0] == z:
                             return True
     return False
 
@@ -266,6 +282,46 @@ def h_seq4(k1: int, k2: int, k3: int, k4: int, m: int, c1: int, c2: int, c3: int
     for k, c, ln, ini in ((k1, c1, 31, 7), (k2, c2, 32, 8), (k3, c3, 33, 9), (k4, c4, 34, 10)):
         f, n = hx.pick(FN, c)
         steps.append((k, m, f, n, ln, ini, False))
+    if _kf_region([(s[0], s[1], s[2], s[3]) for s in steps]):
+        return hx.verdict(True, False)
+    ok, nt = _core(steps)
+    return hx.verdict(ok, nt)
+
+
+FN_WIDE = [(f, n) for f in range(4) for n in range(4)]      # any of the four names as the field addressed
+
+
+def _fn_wide_ok(k, c):
+    """Like _step_ok, but a mutation may address any of the four field names (so that a field can
+    be followed under the name an earlier rename or add of the same sequence gave it)."""
+    if not (0 <= c <= 15):
+        return False
+    f, n = c // 4, c % 4
+    if k in (0, 4) and n == 0:
+        return False
+    if k in (0, 6):
+        return f == 0
+    if k in (1, 2, 3, 5):
+        return n == 0
+    if k in (7, 8):
+        return f == 0 and n == 0
+    return True
+
+
+def h_seq3_follow(k1: int, k2: int, k3: int, c1: int, c2: int, c3: int) -> bool:
+    """Sequences of three mutations on one model in which later mutations may address a field by
+    the name an earlier step gave it (rename chains followed by a change/delete/rename/
+    unique_together, add followed by rename and change, ...).
+
+    pre: _fn_wide_ok(k1, c1) and _fn_wide_ok(k2, c2) and _fn_wide_ok(k3, c3)
+    pre: hx.in_part(k1, k2, k3)
+    pre: not hx.excluded(k1, k2, k3, c1, c2, c3)
+    post: _
+    """
+    steps = []
+    for k, c, ln, ini in ((k1, c1, 31, 7), (k2, c2, 32, 8), (k3, c3, 33, 9)):
+        f, n = hx.pick(FN_WIDE, c)
+        steps.append((k, 0, f, n, ln, ini, True))
     if _kf_region([(s[0], s[1], s[2], s[3]) for s in steps]):
         return hx.verdict(True, False)
     ok, nt = _core(steps)
